@@ -1,174 +1,323 @@
 //! Engine K: Kani/CBMC bounded proofs of the two leaf mechanisms the observer
 //! contract rests on (DESIGN.md 2.4).  Built against the instrumented copy
-//! with the Kani flavour of the facade (Cell-based locks).
+//! with the Kani flavour of the facade (Cell-based locks; a lock taken while
+//! held incompatibly is an assertion failure).
 //!
-//! Each harness has a twin `*_witness` that ends in `assert!(false)` behind
-//! the same assumptions and must come back FAILED (vacuity witness).
+//! quick tier   : straight-line call sequences with symbolic arguments
+//!                (`k_quick_*`), default path-merging mode, 2-10 s each
+//! thorough tier: 3 symbolic operations (`k_ops3_*`), decided path by path
+//!                (`--cbmc-args --paths lifo`), ~1.5 min each
+//! `*_witness` harnesses end in `assert!(false)` behind the same code and
+//! must come back FAILED (vacuity witness).
 
-#[cfg(kani)]
-mod proofs {
+pub mod bodies {
   use another_rxrust::internals::function_wrapper::FunctionWrapper;
   use another_rxrust::prelude::*;
-  use std::cell::Cell;
-  use std::rc::Rc;
+  use std::sync::atomic::{AtomicU32, Ordering};
+  use std::sync::Arc;
 
-  // Fn + Send + Sync closures over a counter: a tiny Sync cell for the
-  // single-threaded model
-  struct Ctr(Cell<u32>);
-  unsafe impl Sync for Ctr {}
-  unsafe impl Send for Ctr {}
+  /// source of nondeterministic values: kani::any under Kani, a fixed list natively
+  pub trait Nd {
+    fn any(&mut self) -> u8;
+    /// returns false when the path must be abandoned (assume)
+    fn assume(&mut self, c: bool) -> bool;
+  }
 
-  fn fw_ops(n: usize, witness: bool) {
-    let calls: &'static Ctr = Box::leak(Box::new(Ctr(Cell::new(0))));
-    let f: FunctionWrapper<'static, u8, u8> = FunctionWrapper::new(move |x: u8| {
-      calls.0.set(calls.0.get() + 1);
+  fn counter() -> Arc<AtomicU32> {
+    Arc::new(AtomicU32::new(0))
+  }
+  fn get(c: &Arc<AtomicU32>) -> u32 {
+    c.load(Ordering::Relaxed)
+  }
+
+  fn mk_fw(calls: &Arc<AtomicU32>) -> FunctionWrapper<'static, u8, u8> {
+    let c2 = calls.clone();
+    FunctionWrapper::new(move |x: u8| {
+      c2.fetch_add(1, Ordering::Relaxed);
       x
-    });
-    // model: slot present?, times the function ran through call_and_clear
-    let mut present = true;
-    let mut ran_clear = 0u32;
-    let mut expected_calls = 0u32;
-    let mut i = 0;
-    while i < n {
-      let op: u8 = kani::any();
-      kani::assume(op < 4);
-      let arg: u8 = kani::any();
-      match op {
-        0 => {
-          let r = f.call_if_available(arg);
-          assert_eq!(r.is_some(), present);
-          if present {
-            assert_eq!(r, Some(arg));
-            expected_calls += 1;
-          }
+    })
+  }
+
+  struct Obs3 {
+    ob: Observer<'static, u8>,
+    nexts: Arc<AtomicU32>,
+    terms: Arc<AtomicU32>,
+    late: Arc<AtomicU32>,
+  }
+  fn mk_ob() -> Obs3 {
+    let (nexts, terms, late) = (counter(), counter(), counter());
+    let (n2, t2, t3, l1, l2, l3, tt1, tt2, tt3) =
+      (nexts.clone(), terms.clone(), terms.clone(), late.clone(), late.clone(), late.clone(), terms.clone(), terms.clone(), terms.clone());
+    let ob = Observer::new(
+      move |_x: u8| {
+        if tt1.load(Ordering::Relaxed) > 0 {
+          l1.fetch_add(1, Ordering::Relaxed);
         }
-        1 => {
-          let r = f.call_and_clear_if_available(arg);
-          assert_eq!(r.is_some(), present);
-          if present {
-            ran_clear += 1;
-            expected_calls += 1;
-          }
-          present = false;
+        n2.fetch_add(1, Ordering::Relaxed);
+      },
+      move |_e| {
+        if tt2.load(Ordering::Relaxed) > 0 {
+          l2.fetch_add(1, Ordering::Relaxed);
         }
-        2 => {
-          f.clear();
-          present = false;
+        t2.fetch_add(1, Ordering::Relaxed);
+      },
+      move || {
+        if tt3.load(Ordering::Relaxed) > 0 {
+          l3.fetch_add(1, Ordering::Relaxed);
         }
-        _ => {
-          assert_eq!(f.exists(), present);
-          assert_eq!(f.empty(), !present);
-        }
-      }
-      // never after clear, at most once through call_and_clear
-      assert!(ran_clear <= 1);
-      assert_eq!(calls.0.get(), expected_calls);
-      i += 1;
-    }
-    kani::cover!(ran_clear == 1 && !present, "a call_and_clear happened");
+        t3.fetch_add(1, Ordering::Relaxed);
+      },
+    );
+    Obs3 { ob, nexts, terms, late }
+  }
+
+  pub fn fw_straight(nd: &mut dyn Nd, witness: bool) {
+    let calls = counter();
+    let f = mk_fw(&calls);
+    let a: u8 = nd.any();
+    let b: u8 = nd.any();
+    assert!(f.exists());
+    assert!(f.call_if_available(a) == Some(a));
+    assert!(f.call_and_clear_if_available(b) == Some(b));
+    assert!(f.call_and_clear_if_available(a).is_none());
+    assert!(f.call_if_available(a).is_none());
+    assert!(!f.exists() && f.empty());
+    assert!(get(&calls) == 2);
+    f.clear();
+    assert!(f.call_if_available(b).is_none());
+    assert!(get(&calls) == 2);
     if witness {
       assert!(false, "reachability witness");
     }
     std::mem::forget(f);
+    std::mem::forget(calls);
   }
 
-  #[kani::proof]
-  #[kani::unwind(6)]
-  fn function_wrapper_ops() {
-    fw_ops(5, false);
-  }
-  #[kani::proof]
-  #[kani::unwind(6)]
-  fn function_wrapper_ops_witness() {
-    fw_ops(5, true);
+  pub fn k_quick_fw_clear_then_call(nd: &mut dyn Nd) {
+    let calls = counter();
+    let f = mk_fw(&calls);
+    let a: u8 = nd.any();
+    assert!(f.call_if_available(a) == Some(a));
+    f.clear();
+    assert!(f.call_and_clear_if_available(a).is_none());
+    assert!(f.call_if_available(a).is_none());
+    assert!(get(&calls) == 1);
+    std::mem::forget(f);
+    std::mem::forget(calls);
   }
 
-  struct Log {
-    nexts: Cell<u32>,
-    errors: Cell<u32>,
-    completes: Cell<u32>,
-    after_terminal: Cell<bool>,
+  /// next, complete, then everything again: nothing after the terminal
+  pub fn k_quick_ob_complete_closes(nd: &mut dyn Nd) {
+    let o = mk_ob();
+    o.ob.next(nd.any());
+    assert!(o.ob.is_subscribed());
+    o.ob.complete();
+    assert!(!o.ob.is_subscribed());
+    o.ob.next(nd.any());
+    o.ob.error(RxError::from_error(7u8));
+    o.ob.complete();
+    assert!(get(&o.nexts) == 1);
+    assert!(get(&o.terms) == 1);
+    assert!(get(&o.late) == 0);
+    std::mem::forget(o);
   }
-  unsafe impl Sync for Log {}
-  unsafe impl Send for Log {}
+  /// error first
+  pub fn k_quick_ob_error_closes(nd: &mut dyn Nd) {
+    let o = mk_ob();
+    o.ob.next(nd.any());
+    o.ob.error(RxError::from_error(7u8));
+    assert!(!o.ob.is_subscribed());
+    o.ob.complete();
+    o.ob.next(nd.any());
+    o.ob.error(RxError::from_error(8u8));
+    assert!(get(&o.nexts) == 1);
+    assert!(get(&o.terms) == 1);
+    assert!(get(&o.late) == 0);
+    std::mem::forget(o);
+  }
+  /// unsubscribe stops everything and is idempotent
+  pub fn k_quick_ob_unsubscribe_closes(nd: &mut dyn Nd) {
+    let o = mk_ob();
+    o.ob.next(nd.any());
+    o.ob.unsubscribe();
+    assert!(!o.ob.is_subscribed());
+    o.ob.unsubscribe();
+    o.ob.next(nd.any());
+    o.ob.complete();
+    o.ob.error(RxError::from_error(8u8));
+    assert!(get(&o.nexts) == 1);
+    assert!(get(&o.terms) == 0);
+    std::mem::forget(o);
+  }
 
-  fn observer_ops(n: usize, witness: bool) {
-    let log: &'static Log = Box::leak(Box::new(Log {
-      nexts: Cell::new(0),
-      errors: Cell::new(0),
-      completes: Cell::new(0),
-      after_terminal: Cell::new(false),
-    }));
-    let done = move || log.errors.get() + log.completes.get() > 0;
-    let ob: Observer<'static, u8> = Observer::new(
-      move |_x: u8| {
-        if done() {
-          log.after_terminal.set(true);
-        }
-        log.nexts.set(log.nexts.get() + 1);
-      },
-      move |_e| {
-        if done() {
-          log.after_terminal.set(true);
-        }
-        log.errors.set(log.errors.get() + 1);
-      },
-      move || {
-        if done() {
-          log.after_terminal.set(true);
-        }
-        log.completes.set(log.completes.get() + 1);
-      },
-    );
-    let mut closed = false; // terminal or unsubscribe happened
-    let mut expected_nexts = 0u32;
-    let mut i = 0;
-    while i < n {
-      let op: u8 = kani::any();
-      kani::assume(op < 4);
-      match op {
-        0 => {
-          ob.next(kani::any());
-          if !closed {
-            expected_nexts += 1;
-          }
-        }
-        1 => {
-          ob.complete();
-          closed = true;
-        }
-        2 => {
-          ob.error(RxError::from_error(7u8));
-          closed = true;
-        }
-        _ => {
-          ob.unsubscribe();
-          closed = true;
-        }
+  // ---- thorough: three symbolic operations
+
+  pub fn fw_ops3(nd: &mut dyn Nd, witness: bool) {
+    let calls = counter();
+    let f = mk_fw(&calls);
+    let mut present = true;
+    let mut expected = 0u32;
+    let mut cleared_runs = 0u32;
+    for _ in 0..3 {
+      let op: u8 = nd.any();
+      if !nd.assume(op < 3) {
+        return;
       }
-      // the contract of a directly attached subscriber
-      assert!(log.errors.get() + log.completes.get() <= 1, "more than one terminal");
-      assert!(!log.after_terminal.get(), "callback after the terminal");
-      assert_eq!(log.nexts.get(), expected_nexts, "item delivered after terminal/unsubscribe");
-      assert_eq!(ob.is_subscribed(), !closed);
-      i += 1;
+      if op == 0 {
+        let r = f.call_if_available(1);
+        assert!(r.is_some() == present);
+        if present {
+          expected += 1;
+        }
+      } else if op == 1 {
+        let r = f.call_and_clear_if_available(2);
+        assert!(r.is_some() == present);
+        if present {
+          expected += 1;
+          cleared_runs += 1;
+        }
+        present = false;
+      } else {
+        f.clear();
+        present = false;
+      }
+      assert!(f.exists() == present);
+      assert!(cleared_runs <= 1);
     }
-    kani::cover!(closed && expected_nexts > 0, "items then closed");
+    assert!(get(&calls) == expected);
     if witness {
       assert!(false, "reachability witness");
     }
-    std::mem::forget(ob);
-    let _ = Rc::new(0);
+    std::mem::forget(f);
+    std::mem::forget(calls);
   }
 
-  #[kani::proof]
-  #[kani::unwind(5)]
-  fn observer_contract() {
-    observer_ops(3, false);
+  pub fn k_ops3_ob(nd: &mut dyn Nd) {
+    let o = mk_ob();
+    let mut closed = false;
+    let mut expected_nexts = 0u32;
+    for _ in 0..3 {
+      let op: u8 = nd.any();
+      if !nd.assume(op < 4) {
+        return;
+      }
+      if op == 0 {
+        o.ob.next(1);
+        if !closed {
+          expected_nexts += 1;
+        }
+      } else if op == 1 {
+        o.ob.complete();
+        closed = true;
+      } else if op == 2 {
+        o.ob.error(RxError::from_error(7u8));
+        closed = true;
+      } else {
+        o.ob.unsubscribe();
+        closed = true;
+      }
+      assert!(get(&o.terms) <= 1);
+      assert!(get(&o.late) == 0);
+      assert!(get(&o.nexts) == expected_nexts);
+      assert!(o.ob.is_subscribed() == !closed);
+    }
+    std::mem::forget(o);
+  }
+}
+
+#[cfg(kani)]
+mod proofs {
+  use super::bodies::*;
+  struct K;
+  impl Nd for K {
+    fn any(&mut self) -> u8 {
+      kani::any()
+    }
+    fn assume(&mut self, c: bool) -> bool {
+      kani::assume(c);
+      true
+    }
   }
   #[kani::proof]
-  #[kani::unwind(5)]
-  fn observer_contract_witness() {
-    observer_ops(3, true);
+  fn k_quick_fw_straight() {
+    fw_straight(&mut K, false);
   }
+  #[kani::proof]
+  fn kw_quick_fw_straight() {
+    fw_straight(&mut K, true);
+  }
+  #[kani::proof]
+  fn k_quick_fw_clear_then_call() {
+    super::bodies::k_quick_fw_clear_then_call(&mut K);
+  }
+  #[kani::proof]
+  fn k_quick_ob_complete_closes() {
+    super::bodies::k_quick_ob_complete_closes(&mut K);
+  }
+  #[kani::proof]
+  fn k_quick_ob_error_closes() {
+    super::bodies::k_quick_ob_error_closes(&mut K);
+  }
+  #[kani::proof]
+  fn k_quick_ob_unsubscribe_closes() {
+    super::bodies::k_quick_ob_unsubscribe_closes(&mut K);
+  }
+  #[kani::proof]
+  #[kani::unwind(4)]
+  fn k_ops3_fw() {
+    fw_ops3(&mut K, false);
+  }
+  #[kani::proof]
+  #[kani::unwind(4)]
+  fn kw_ops3_fw() {
+    fw_ops3(&mut K, true);
+  }
+  #[kani::proof]
+  #[kani::unwind(4)]
+  fn k_ops3_ob() {
+    super::bodies::k_ops3_ob(&mut K);
+  }
+}
+
+/// native replay of the same bodies (against the pristine crate): every
+/// value list over {0,1,2,3,255}^k is tried; a failing assertion panics
+pub fn replay_native(harness: &str) -> bool {
+  use bodies::*;
+  struct L {
+    vals: Vec<u8>,
+    pos: usize,
+  }
+  impl Nd for L {
+    fn any(&mut self) -> u8 {
+      let v = self.vals[self.pos % self.vals.len()];
+      self.pos += 1;
+      v
+    }
+    fn assume(&mut self, c: bool) -> bool {
+      c
+    }
+  }
+  let dom = [0u8, 1, 2, 3, 255];
+  let mut ok = true;
+  for a in dom {
+    for b in dom {
+      for c in dom {
+        let mut nd = L { vals: vec![a, b, c], pos: 0 };
+        let r = std::panic::catch_unwind(std::panic::AssertUnwindSafe(|| match harness {
+          "k_quick_fw_straight" => fw_straight(&mut nd, false),
+          "k_quick_fw_clear_then_call" => k_quick_fw_clear_then_call(&mut nd),
+          "k_quick_ob_complete_closes" => k_quick_ob_complete_closes(&mut nd),
+          "k_quick_ob_error_closes" => k_quick_ob_error_closes(&mut nd),
+          "k_quick_ob_unsubscribe_closes" => k_quick_ob_unsubscribe_closes(&mut nd),
+          "k_ops3_fw" => fw_ops3(&mut nd, false),
+          "k_ops3_ob" => k_ops3_ob(&mut nd),
+          _ => panic!("unknown harness"),
+        }));
+        if r.is_err() {
+          ok = false;
+        }
+      }
+    }
+  }
+  ok
 }
